@@ -203,6 +203,11 @@ def anchorAfterSupertype (sups : List String) (q : String) : Bool :=
 /-- `( … ( group ) . )`: a trailing anchor directly after a plain group. -/
 def trailingAnchorAfterGroup (q : String) : Bool :=
   let toks := (tokenize (q.length + 1) q.toList #[]).toList
+  -- the group's quantifier and captures
+  let rec skipSuffix : List Tok → List Tok
+    | .quant _ :: rest => skipSuffix rest
+    | .cap _ :: rest => skipSuffix rest
+    | ts => ts
   let rec go : List Bool → List Tok → Bool
     | _, [] => false
     | st, .lp :: rest =>
@@ -210,7 +215,7 @@ def trailingAnchorAfterGroup (q : String) : Bool :=
       go (isGroup :: st) rest
     | st, .rp :: rest =>
       match st with
-      | g :: st' => (g && (match rest with | .dot :: .rp :: _ => true | _ => false)) || go st' rest
+      | g :: st' => (g && (match skipSuffix rest with | .dot :: .rp :: _ => true | _ => false)) || go st' rest
       | [] => go [] rest
     | st, _ :: rest => go st rest
   go [] toks
@@ -231,16 +236,58 @@ def neverBound (model impl : List MatchKey) : List (Nat × String × Nat) :=
 /-- `…)? .` / `…* @c .`: an anchor right after a quantified child pattern. -/
 def quantifierBeforeAnchor (q : String) : Bool :=
   let toks := (tokenize (q.length + 1) q.toList #[]).toList
-  let rec go : List Tok → Bool
-    | .quant _ :: rest => (match dropCaps rest with | .dot :: _ => true | _ => false) || go rest
-    | _ :: rest => go rest
-    | [] => false
-  go toks
+  let isGroupStart : List Tok → Bool
+    | .lp :: _ => true | .lb :: _ => true | .str _ :: _ => true | _ => false
+  -- `st`: for every open `(` whether it opens a group; `tail`: the element that was just completed
+  -- ends in a quantified pattern (through the closing parentheses of groups)
+  let rec go : List Bool → Bool → List Tok → Bool
+    | _, _, [] => false
+    | st, _, .quant _ :: rest => go st true rest
+    | st, tail, .cap _ :: rest => go st tail rest
+    | st, tail, .dot :: rest => tail || go st false rest
+    | st, tail, .rp :: rest =>
+      match st with
+      | g :: st' => go st' (g && tail) rest
+      | [] => go [] false rest
+    | st, _, .lp :: rest => go (isGroupStart rest :: st) false rest
+    | st, _, _ :: rest => go st false rest
+  go [] false toks
 
 /-- The only quantifier used is `?` (present-or-absent: no choice of how many repetitions). -/
 def onlyOptionalQuantifiers (q : String) : Bool :=
   let toks := (tokenize (q.length + 1) q.toList #[]).toList
   toks.all fun t => match t with | .quant .star => false | .quant .plus => false | _ => true
+
+/-- Skip one balanced child pattern (`[field:] ( … )`, `[ … ]`, a literal, `_`). -/
+partial def skipItemToks : List Tok → List Tok
+  | .ident _ :: .colon :: r => skipItemToks r
+  | .lp :: r => closeToks 1 r
+  | .lb :: r => closeToks 1 r
+  | _ :: r => r
+  | [] => []
+where
+  closeToks : Nat → List Tok → List Tok
+    | 0, ts => ts
+    | _, [] => []
+    | d + 1, .lp :: r => closeToks (d + 2) r
+    | d + 1, .lb :: r => closeToks (d + 2) r
+    | d + 1, .rp :: r => closeToks d r
+    | d + 1, .rb :: r => closeToks d r
+    | d + 1, _ :: r => closeToks (d + 1) r
+
+/-- A QUANTIFIED group `( e1 … )q` whose first element `e1` is itself quantified. -/
+partial def quantGroupQuantFirst (q : String) : Bool :=
+  let toks := (tokenize (q.length + 1) q.toList #[]).toList
+  let isGroupStart : List Tok → Bool
+    | .lp :: _ => true | .lb :: _ => true | .str _ :: _ => true | _ => false
+  let rec go : List Tok → Bool
+    | [] => false
+    | .lp :: rest =>
+      (isGroupStart rest &&
+        (match skipItemToks rest with | .quant _ :: _ => true | _ => false) &&
+        (match skipItemToks (.lp :: rest) with | .quant _ :: _ => true | _ => false)) || go rest
+    | _ :: rest => go rest
+  go toks
 
 def hasQuantifierToken (q : String) : Bool :=
   let toks := (tokenize (q.length + 1) q.toList #[]).toList
@@ -248,7 +295,7 @@ def hasQuantifierToken (q : String) : Bool :=
 
 def runCase (s : St) : String :=
   let tail := s!"compiled={s.compiled.getD false} haserror={s.hasError}"
-  if s.crashed then s!"{s.id} judge=FAIL compile-crash-plus-on-empty-matching-group {tail}" else
+  if s.crashed then s!"{s.id} judge=FAIL nontermination-plus-on-empty-matching-group {tail}" else
   match buildVT s.nodes.toList with
   | none => s!"{s.id} judge=FAIL badtree {tail}"
   | some vt =>
@@ -270,7 +317,8 @@ def runCase (s : St) : String :=
           let info := s!"nimpl={s.impls.size} nmodel=- qfree=false npat={items.length} capq={cqCorr} capqjudge={cqJudge} verified=true {tail}"
           if bad.isEmpty then s!"{s.id} judge=ok {info}"
           else
-            let kind := if (s.query.splitOn " .)").length > 1 && hasNestedChildPattern s.query then "unsound-quantified-trailing-anchor-nested"
+            let kind := if quantGroupQuantFirst s.query then "unsound-quantified-group-left-after-quantified-first-element"
+              else if (s.query.splitOn " .)").length > 1 && hasNestedChildPattern s.query then "unsound-quantified-trailing-anchor-nested"
               else if (s.query.splitOn " .)").length > 1 then "unsound-quantified-trailing-anchor" else "unsound-verifier"
             s!"{s.id} judge=FAIL {kind} first={repr bad.head!} {info}"
         | _ => s!"{s.id} judge=SKIP toolarge-rejected qfree=false {tail}"
@@ -297,6 +345,7 @@ def runCase (s : St) : String :=
             else if trailing && hasNestedChildPattern s.query then "unsound-quantified-trailing-anchor-nested"
             else if trailing then "unsound-quantified-trailing-anchor"
             else if wildKids && (s.query.splitOn "!").length > 1 then "unsound-wildroot-test-skipped"
+            else if quantGroupQuantFirst s.query then "unsound-quantified-group-left-after-quantified-first-element"
             else if wildKids && s.hasError then "unsound-wildroot-error-parent"
             else if s.sups.any (fun n => (s.query.splitOn ("(" ++ n ++ " ")).length > 1) then "unsound-supertype-root-test-skipped"
             else "unsound"
@@ -314,17 +363,23 @@ def runCase (s : St) : String :=
           -- implementation-defined, but a binding that no other binding extends (the longest match)
           -- must be covered by a reported match of that pattern
           let bad := maximalMissing model impl
-          let kind := if trailingAnchorAfterGroup s.query then "incomplete-trailing-anchor-after-group"
+          let kind := if quantifierBeforeAnchor s.query then "quantified-maximal-binding-missing-anchor-after-quantifier"
+            else if trailingAnchorAfterGroup s.query then "incomplete-trailing-anchor-after-group"
             else if anchorAfterSupertype s.sups s.query then "incomplete-anchor-after-supertype"
-            else if quantifierBeforeAnchor s.query then "quantified-maximal-binding-missing-anchor-after-quantifier"
+            else if anchorAfterNestedWildcard s.query then "incomplete-anchor-after-nested-wildcard"
+            else if anchorAfterAlternation s.query then "incomplete-anchor-after-uncaptured-alternation"
+            else if anchorAfterUnnamedWildcard s.query then "incomplete-strict-anchor-after-uncaptured-unnamed-wildcard"
             else "quantified-maximal-binding-missing"
           s!"{s.id} judge=FAIL {kind} first={repr bad.head!} {info}"
         else if quant && !(neverBound model impl).isEmpty then
           -- any quantifier: a (capture, node) pair that some binding of the definition has must
           -- occur in some reported match of that pattern
-          let kind := if trailingAnchorAfterGroup s.query then "incomplete-trailing-anchor-after-group"
+          let kind := if quantifierBeforeAnchor s.query then "quantified-maximal-binding-missing-anchor-after-quantifier"
+            else if trailingAnchorAfterGroup s.query then "incomplete-trailing-anchor-after-group"
             else if anchorAfterSupertype s.sups s.query then "incomplete-anchor-after-supertype"
-            else if quantifierBeforeAnchor s.query then "quantified-maximal-binding-missing-anchor-after-quantifier"
+            else if anchorAfterNestedWildcard s.query then "incomplete-anchor-after-nested-wildcard"
+            else if anchorAfterAlternation s.query then "incomplete-anchor-after-uncaptured-alternation"
+            else if anchorAfterUnnamedWildcard s.query then "incomplete-strict-anchor-after-uncaptured-unnamed-wildcard"
             else "quantified-capture-never-bound"
           s!"{s.id} judge=FAIL {kind} first={repr (neverBound model impl).head!} {info}"
         else if cqJudge != "ok" then s!"{s.id} judge=FAIL capture-count-outside-quantifier {info}"
